@@ -362,8 +362,53 @@ func expandConds(cs []condFact) []condFact {
 			}
 		}
 	}
+	// a predicate helper (shouldRetry(resp), connFailed()) known to have returned t: what held at the
+	// return(s) that can produce t holds here — for the callee's own values (its parameters and the
+	// fields it reads), which is what field-based rule predicates look at
+	addCall := func(c condFact, depth int) {}
+	addCall = func(c condFact, depth int) {
+		call, ok := c.Cond.(*ssa.Call)
+		p := theProg
+		if !ok || p == nil || depth > 3 {
+			return
+		}
+		g := p.unbound(staticCallee(call))
+		if g == nil || !p.allFns[g] || len(g.Blocks) == 0 || g.Signature.Results().Len() != 1 {
+			return
+		}
+		if bt, ok := g.Signature.Results().At(0).Type().Underlying().(*types.Basic); !ok || bt.Kind() != types.Bool {
+			return
+		}
+		var cand []*ssa.Return
+		allInstrsRaw(g, func(in ssa.Instruction) {
+			rt, ok := in.(*ssa.Return)
+			if !ok || len(rt.Results) != 1 {
+				return
+			}
+			rv := blockLocalValue(rt.Results[0])
+			if k := constKind(rv); (k == 1 && !c.True) || (k == 2 && c.True) {
+				return // this return yields the other value
+			}
+			cand = append(cand, rt)
+		})
+		if len(cand) != 1 {
+			return // several ways to produce t: no single set of facts
+		}
+		rt := cand[0]
+		rv := blockLocalValue(rt.Results[0])
+		if constKind(rv) == 0 {
+			add(condFact{rv, c.True}, depth+1)
+		}
+		for _, ic := range impliedConds(rt.Block()) {
+			add(ic, depth+1)
+		}
+	}
 	for _, c := range cs {
 		add(c, 0)
+	}
+	// second pass: expand through predicate helpers (may add more conditions, themselves expanded by add)
+	for i := 0; i < len(out) && i < 200; i++ {
+		addCall(out[i], 0)
 	}
 	return out
 }
